@@ -18,3 +18,51 @@ def c11_toggle_default(first, value):
     encode.support_deprecated_rabbitmq(first)
     encode.support_deprecated_rabbitmq()
     return encode.table_integer(value)
+
+
+# ---------------------------------------------------------------- C18 / C06 / C07 / C20
+from pamqp import body, frame, header, heartbeat
+
+
+def c18_body_roundtrip(value, channel, rest):
+    wire = frame.marshal(body.ContentBody(value), channel)
+    return wire, frame.unmarshal(wire + rest)
+
+
+def c18_body_len(value):
+    return len(body.ContentBody(value))
+
+
+def c18_heartbeat(channel, rest):
+    wire = frame.marshal(heartbeat.Heartbeat(), channel)
+    return wire, frame.unmarshal(wire + rest)
+
+
+def c18_protocol_header(major, minor, revision, channel, rest):
+    wire = frame.marshal(header.ProtocolHeader(major, minor, revision), channel)
+    return wire, frame.unmarshal(wire + rest)
+
+
+def c06_trailing_bytes(first, tail):
+    """`first` is a buffer on which decoding succeeds and consumes everything;
+    appending arbitrary bytes must not change what is decoded or how much."""
+    n1, ch1, obj1 = frame.unmarshal(first)
+    n2, ch2, obj2 = frame.unmarshal(first + tail)
+    return n1, ch1, obj1, n2, ch2, obj2, (first + tail)[n2:]
+
+
+def c07_prefix(prefix):
+    return frame.unmarshal(prefix)
+
+
+def c20_peek_then_read(value, channel, rest):
+    wire = frame.marshal(body.ContentBody(value), channel)
+    buf = wire + rest
+    frame_type, channel_id, size = frame.frame_parts(buf)
+    return frame_type, channel_id, size, len(wire), frame.unmarshal(buf[0:7 + size + 1])
+
+
+def c20_peek_low_level(frame_type, channel, payload, rest):
+    wire = frame._marshal(frame_type, channel, payload)
+    t, ch, size = frame.frame_parts(wire + rest)
+    return t, ch, size, len(wire)
